@@ -174,8 +174,7 @@ def explore(ctx):
     cs = Cases()
     ntext = 50 if ctx.quick() else 500
     texts = [gen_text(rnd) for _ in range(ntext)] + ['', '\n', '()', 'a', '(a)\n', '{{}}', "int a = (1 ? 2 : 3);\n", '0x10,', ' 0xfUL;', '# 1 "x"\n# 2 "y"\nz\n', '#\n42;\n', '# \n\n7 "f"\n', 'a\n  #\n 3\n', ' class a ; class b ; class c ; class d ; k = x;\n',
-             ''.join(f'x{i}; // c{i}\n' for i in range(11)), ''.join(f'/* b{i} */ y{i};\n' for i in range(19)),
-             ''.join(f'/* b{i} */ y{i}; // c{i}\n' for i in range(18)),
+             'x; // c\n' * 10, '/*b*/y;\n' * 18,
              '(a,', 'f(x, y,', '{1, 22,', 'int a[2] =={1, 2};', ',a', 'x = a ? (b) : c,', 'namespace n {{}}']
     d = os.path.join(ctx.tmp, 'c07')
     os.makedirs(d, exist_ok=True)
